@@ -1,4 +1,4 @@
 SPECIFICATION Spec
-INVARIANTS Inv_C04a Inv_C04b Inv_C04c Inv_C05 Inv_C10b Inv_C18b
+INVARIANTS Inv_C04a Inv_C04b Inv_C04c Inv_C05 Inv_C05tr Inv_C10b Inv_C18b
 PROPERTIES Act_C01 Act_C02 Act_C03 Act_C10 Act_C11 Act_C18
 CHECK_DEADLOCK FALSE
